@@ -1,35 +1,35 @@
 (** C32 — cleanup never loses an assigned repository.
     Model: Model/Cleanup.v ([cleanup d repos now shardMerging] = cmd/zoekt-sourcegraph-indexserver/cleanup.go
-    after the repair `fix: indexserver cleanup: tombstone unassigned repos in compound shards even when
-    they also have simple shards`).  Proofs: Proofs/CleanupProofs.v. *)
-From ZV Require Import Lib.Base Model.Cleanup Proofs.CleanupProofs Proofs.CleanupUnassigned Proofs.CleanupTrash Proofs.CleanupRevive.
+    after the repairs `fix: indexserver cleanup: tombstone unassigned repos in compound shards even when
+    they also have simple shards` and `fix: indexserver cleanup: keep compound shards that still serve
+    other repositories when shard merging is disabled`).  Proofs: Proofs/CleanupProofs.v. *)
+From ZV Require Import Lib.Base Model.Cleanup Proofs.CleanupProofs Proofs.CleanupUnassigned Proofs.CleanupTrash Proofs.CleanupRevive Proofs.CleanupRestore.
 Open Scope Z_scope.
 
-(** assigned_kept.  For every well-formed index directory, every assigned set, every time and both
+(** assigned_kept (FULL).  For every well-formed index directory, every assigned list, every time and both
     settings of shardMerging: a shard file f that serves an assigned repository r whose shards agree
     on its name is still in the index after cleanup, under the same name and kind, with r's metadata
-    (alive, name, dates) untouched — provided shardMerging is on or f is not a compound shard.
-    (FULL statement without that proviso is refuted below: C32_assigned_kept_no_merging_refuted.) *)
-Theorem C32_assigned_kept_partial : forall d repos now sm f e r,
+    (alive, name, dates) untouched.  (Holds for shardMerging = false since the repair `fix: indexserver
+    cleanup: keep compound shards that still serve other repositories when shard merging is disabled`.) *)
+Theorem C32_assigned_kept : forall d repos now sm f e r,
   wf d -> In f (d_index d) -> In e (alive_entries f) -> e_id e = r ->
   In r repos -> consistent (group (get_shards (d_index d)) r) = true ->
-  sm = true \/ f_compound f = false ->
   exists f', In f' (d_index (cleanup d repos now sm)) /\ f_base f' = f_base f /\
              f_compound f' = f_compound f /\ proj r f' = proj r f.
 Proof. intros. eapply assigned_kept; eauto. Qed.
-Print Assumptions C32_assigned_kept_partial.
+Print Assumptions C32_assigned_kept.
 
-(** the open finding: shardMerging = false, a compound shard holding assigned repository 1 and unassigned
-    repository 2 is deleted outright *)
-Theorem C32_assigned_kept_no_merging_refuted :
+(** what was wrong before that repair: shardMerging = false, a compound shard holding assigned repository 1
+    and unassigned repository 2 was deleted outright ([cleanup_before_fix2] = the model of the code before) *)
+Theorem C32_assigned_kept_no_merging_before_fix_refuted :
   exists d repos now f e r,
     wf d /\ In f (d_index d) /\ In e (alive_entries f) /\ e_id e = r /\ In r repos /\
     consistent (group (get_shards (d_index d)) r) = true /\
-    d_index (cleanup d repos now false) = [].
-Proof. exact assigned_kept_no_merging_refuted. Qed.
-Print Assumptions C32_assigned_kept_no_merging_refuted.
+    d_index (cleanup_before_fix2 d repos now false) = [].
+Proof. exact assigned_kept_no_merging_before_fix_refuted. Qed.
+Print Assumptions C32_assigned_kept_no_merging_before_fix_refuted.
 
-(** what was wrong before the repair (shardMerging = true; unassigned repository 2 alive in a simple
+(** what was wrong before the first repair (shardMerging = true; unassigned repository 2 alive in a simple
     shard and in the compound shard that also serves assigned repository 1) *)
 Theorem C32_assigned_kept_before_fix_refuted :
   exists d repos now f e r,
@@ -51,12 +51,21 @@ Print Assumptions C32_unassigned_not_searchable_after.
 (** assigned_untombstoned (shardMerging = true): an assigned repository that is not alive in the index, has no
     restorable trashed shards, and is tombstoned in a compound shard is alive again afterwards, in the
     compound shard getTombstonedRepos selects (latest commit date, later file on ties).
-    (With shardMerging = false the shard may be deleted first: same open finding as above.) *)
+    (With shardMerging = false the rename purge may delete that shard first when nothing but a renamed repository
+    is alive in it: C32_assigned_untombstoned_no_merging_refuted, the remaining known finding.) *)
 Theorem C32_assigned_untombstoned : forall d repos now id,
   wf d -> In id repos -> ~ In id (ids_of (ix d)) -> ~ In id (trash_keys d now) -> In id (tomb_ids (d_index d)) ->
   exists b, tomb_pick (tomb_candidates (d_index d) id) = Some b /\ alive_at b id (cleanup d repos now true).
 Proof. intros. eapply assigned_untombstoned; eauto. Qed.
 Print Assumptions C32_assigned_untombstoned.
+
+Theorem C32_assigned_untombstoned_no_merging_refuted :
+  exists d repos now id,
+    wf d /\ In id repos /\ ~ In id (ids_of (ix d)) /\ ~ In id (trash_keys d now) /\ In id (tomb_ids (d_index d)) /\
+    d_index (cleanup d repos now false) = [] /\
+    (exists b, alive_at b id (cleanup d repos now true)).
+Proof. exact assigned_untombstoned_no_merging_refuted. Qed.
+Print Assumptions C32_assigned_untombstoned_no_merging_refuted.
 
 (** trash_deleted_only_if_old_or_conflict (contrapositive): a trashed shard of a repository that is not
     assigned (assigned ones are restored), none of whose trashed shards is older than 24 h
@@ -68,6 +77,63 @@ Theorem C32_trash_kept_unless_old_conflicting_or_assigned : forall d repos now s
   exists t', In t' (d_trash (cleanup d repos now sm)) /\ f_base t' = f_base t /\ f_repos t' = f_repos t.
 Proof. intros. eapply trash_kept; eauto. Qed.
 Print Assumptions C32_trash_kept_unless_old_conflicting_or_assigned.
+
+(** assigned_restored_from_trash: an assigned repository that is in the trash with no trashed shard older than
+    24 h and that is not alive in the index ([trash_keys], spelled out by C32_trash_keys_spec) gets each of
+    its trashed simple shards back into the index, with its content, and the trash no longer has a file of
+    that name.  The assigned list must be duplicate-free: see the refutation below. *)
+Theorem C32_assigned_restored_from_trash : forall d repos now sm t e id,
+  wf d -> wf_trash d -> In t (d_trash d) -> alive_entries t = [e] -> f_compound t = false -> e_id e = id ->
+  In id repos -> NoDup repos -> In id (trash_keys d now) ->
+  (exists f', In f' (d_index (cleanup d repos now sm)) /\ f_base f' = f_base t /\ f_repos f' = f_repos t /\
+              f_compound f' = false) /\
+  (forall t', In t' (d_trash (cleanup d repos now sm)) -> f_base t' <> f_base t).
+Proof. intros. eapply assigned_restored_from_trash; eauto. Qed.
+Print Assumptions C32_assigned_restored_from_trash.
+
+Theorem C32_trash_keys_spec : forall d now id,
+  In id (trash_keys d now) <->
+  (exists s, In s (get_shards (d_trash d)) /\ s_id s = id) /\ trash_drop d now id = false.
+Proof.
+  intros. unfold trash_keys. rewrite filter_In, negb_true_iff. unfold tr. rewrite in_ids_of. reflexivity.
+Qed.
+Print Assumptions C32_trash_keys_spec.
+
+(** with a duplicate id in the assigned list the second moveAll(indexDir, ...) first removes its destination
+    (the shard just restored) and then finds nothing to move: the repository is lost from index AND trash.
+    (The caller passes the ids Sourcegraph assigns; the property speaks of assigned SETS.) *)
+Theorem C32_assigned_restored_duplicate_id_refuted :
+  exists d repos now sm t e id,
+    wf d /\ wf_trash d /\ In t (d_trash d) /\ alive_entries t = [e] /\ f_compound t = false /\ e_id e = id /\
+    In id repos /\ In id (trash_keys d now) /\
+    cleanup d repos now sm = mkD [] [] 0.
+Proof. exact assigned_restored_duplicate_id_refuted. Qed.
+Print Assumptions C32_assigned_restored_duplicate_id_refuted.
+
+(** the converse of the trash rule: a trashed shard of a repository that is old (one of its trashed shards is
+    older than 24 h) or conflicts with the index ([trash_drop] = true) IS deleted: by the first phase, which
+    touches nothing in the index; cleanup continues from that state ... *)
+Theorem C32_trash_old_or_conflicting_deleted : forall d repos now sm t e id,
+  In t (d_trash d) -> In e (alive_entries t) -> e_id e = id -> trash_drop d now id = true ->
+  cleanup d repos now sm =
+    fold_left (apply now) (plan3 d sm ++ plan4 d repos now ++ plan5 d repos sm ++ [ClearTmp]) (after_trash_phase d now) /\
+  d_index (after_trash_phase d now) = d_index d /\
+  (forall t', In t' (d_trash (after_trash_phase d now)) -> f_base t' <> f_base t).
+Proof.
+  intros d repos now sm t e id Ht He Hid Hd. split; [apply cleanup_after_trash_phase|].
+  eapply trash_dropped_in_first_phase; eauto.
+Qed.
+Print Assumptions C32_trash_old_or_conflicting_deleted.
+
+(** ... and nothing brings it back: unless the index itself had a shard file of that name (which the later phases
+    may move to the trash in its place), no file of that name is in the index or in the trash afterwards *)
+Theorem C32_trash_old_or_conflicting_gone : forall d repos now sm t e id,
+  In t (d_trash d) -> In e (alive_entries t) -> e_id e = id -> trash_drop d now id = true ->
+  (forall g, In g (d_index d) -> f_base g <> f_base t) ->
+  (forall g, In g (d_index (cleanup d repos now sm)) -> f_base g <> f_base t) /\
+  (forall t', In t' (d_trash (cleanup d repos now sm)) -> f_base t' <> f_base t).
+Proof. intros. eapply trash_dropped_final; eauto. Qed.
+Print Assumptions C32_trash_old_or_conflicting_gone.
 
 Theorem C32_trash_24h_boundary_exact : forall now s,
   trash_old now [s] = (s_mtime s <? now - 86400).
@@ -123,3 +189,16 @@ Proof. vm_compute. repeat split; reflexivity. Qed.
 Example ex_big_revive_hyps :
   In 6%N ex_repos /\ ~ In 6%N (ids_of (ix ex_big)) /\ ~ In 6%N (trash_keys ex_big 0) /\ In 6%N (tomb_ids (d_index ex_big)).
 Proof. vm_compute. repeat split; try (intros H; repeat (destruct H as [H|H]; [discriminate|]); exact H); auto 10. Qed.
+
+(* repository 8 (trashed exactly 24 h ago, assigned) satisfies the hypotheses of C32_assigned_restored_from_trash;
+   repository 7 (trashed 24 h + 1 s ago) those of C32_trash_old_or_conflicting_gone; the trashed copy of
+   repository 1 conflicts with the index (C32_trash_old_or_conflicting_deleted) *)
+Example ex_big_restore_hyps :
+  In 8%N ex_repos /\ NoDup ex_repos /\ In 8%N (trash_keys ex_big 0) /\
+  trash_drop ex_big 0 7 = true /\ trash_drop ex_big 0 1 = true /\
+  (forall g, In g (d_index ex_big) -> f_base g <> 5%N).
+Proof.
+  split; [vm_compute; auto 10|]. split; [repeat constructor; simpl; intuition discriminate|].
+  split; [vm_compute; auto|]. split; [reflexivity|]. split; [reflexivity|].
+  simpl. intros g Hg. repeat (destruct Hg as [<-|Hg]; [discriminate|]). contradiction.
+Qed.
